@@ -43,7 +43,7 @@ func init() {
 			if tier == "thorough" {
 				return fw.Plan{Shards: 16, CasesPerShard: 1500, TimeoutSec: 3000}
 			}
-			return fw.Plan{Shards: 8, CasesPerShard: 140, TimeoutSec: 900}
+			return fw.Plan{Shards: 8, CasesPerShard: 300, TimeoutSec: 900}
 		},
 		Run: runC18,
 	})
